@@ -196,7 +196,7 @@ class Gen:
         self.r = r
         self.family_name = family or r.choice(["ring", "ring", "tropical", "log", "bool"])
         self.fam = FAMILIES[self.family_name]
-        self.sizes = sizes or {n: r.choice([1, 2, 2, 3, 3, 4]) for n in NAMES}
+        self.sizes = sizes or {n: r.choice([1, 2, 2, 3, 3, 4, 4, 6]) for n in NAMES}
         self.program = []
         self.types = {}  # name -> lazy funsor (type carrier)
         self.counter = 0
@@ -266,7 +266,7 @@ class Gen:
                 elif val[0] == "name":
                     maps.append({val[1]: a.inputs[k]})
                 elif val[0] == "slice":
-                    maps.append({val[1]: Bint[len(range(val[2], val[3], val[4]))]})
+                    maps.append({val[1]: Bint[len(range(val[2], val[3], val[4]))]})  # strided
         elif t == "getitem" and op["index"][0] == "val":
             maps = [dict(self.types[op["a"]].inputs), dict(self.types[op["index"][1]].inputs)]
         seen = {}
@@ -445,11 +445,23 @@ class Gen:
                     if d.size >= 2:
                         start = r.randrange(d.size - 1)
                         stop = r.randint(start + 1, d.size)
+                        step = r.choice([1, 1, 1, 2, 2, 3])
                         self.fresh_names += 1
-                        subs.append([n, ["slice", r.choice([n, "s%d" % self.fresh_names]), start, stop, 1, d.size]])
+                        subs.append([n, ["slice", r.choice([n, n, "s%d" % self.fresh_names]), start, stop, step, d.size]])
             if not subs or any(s[1][0] == "val" and s[1][1] is None for s in subs):
                 return None
-            return self.emit({"op": "subs", "a": a, "subs": subs})
+            out = self.emit({"op": "subs", "a": a, "subs": subs})
+            # a slice of a slice of the same input (composition of strides and offsets)
+            sl = [s for s in subs if s[1][0] == "slice"]
+            if out and sl and r.random() < 0.6:
+                name = sl[0][1][1]
+                size = len(range(sl[0][1][2], sl[0][1][3], sl[0][1][4]))
+                if size >= 2 and name in self.types[out].inputs:
+                    start = r.randrange(size - 1)
+                    stop = r.randint(start + 1, size)
+                    out2 = self.emit({"op": "subs", "a": out, "subs": [[name, ["slice", name, start, stop, r.choice([1, 1, 2]), size]]]})
+                    return out2 or out
+            return out
         if kind == "getitem":
             a = self.pick(lambda v: len(v.output.shape) > 0)
             if a is None:
@@ -752,3 +764,92 @@ def gen_gauss(r):
         if out:
             vals.append(out)
     return g.program, g.family_name
+
+
+def corpus(r):
+    """Scenario corpus: small hand-shaped programs (parameters drawn from the
+    run's PRNG) that reach rare structures on purpose.  Returns a list of
+    (program, family).  Every program is run under every interpretation
+    setting by the engines that use it."""
+    out = []
+
+    def T(g, names, dtype="float"):
+        inputs = [[n, g.sizes[n]] for n in names]
+        shape = [sz for _, sz in inputs]
+        n_el = int(np.prod(shape)) if shape else 1
+        return g.emit({"op": "tensor", "inputs": inputs, "shape": shape, "dtype": dtype, "data": g.data(g.fam["data"], n_el)})
+
+    # 1. slice of a slice of the same input, strided, through a lazy arithmetic term
+    for _ in range(3):
+        size = r.choice([5, 6, 7, 8])
+        g = Gen(r, family="ring", sizes={"i": 2, "j": size, "k": 3, "l": 2}, max_event=0, real_vars=False)
+        t = T(g, ["i", "j"])
+        step1 = r.choice([1, 2, 2, 3])
+        start1 = r.randrange(0, 2)
+        stop1 = r.randint(size - 2, size)
+        n1 = len(range(start1, stop1, step1))
+        u = g.emit({"op": "unary", "fn": "exp", "a": t})
+        s1 = g.emit({"op": "subs", "a": r.choice([t, u]), "subs": [["j", ["slice", "j", start1, stop1, step1, size]]]})
+        if s1 and n1 >= 2:
+            start2 = r.randrange(0, n1 - 1) if n1 > 2 else 0
+            start2 = max(start2, 1) if n1 > 2 else start2
+            stop2 = r.randint(start2 + 1, n1)
+            s2 = g.emit({"op": "subs", "a": s1, "subs": [["j", ["slice", r.choice(["j", "q"]), start2, stop2, r.choice([1, 2]), n1]]]})
+            if s2:
+                g.emit({"op": "binary", "fn": "add", "a": s2, "b": s2})
+        out.append((g.program, "ring"))
+    # 2. a reduction used twice (shared binder) in products and sums
+    for fam, red, prod in (("ring", "add", "mul"), ("log", "logaddexp", "add"), ("tropical", "max", "mul")):
+        g = Gen(r, family=fam, max_event=0, real_vars=False)
+        t = T(g, ["i", "j"])
+        f = g.emit({"op": "reduce", "fn": red, "a": t, "vars": [["i", g.sizes["i"]]]})
+        if f:
+            p2 = g.emit({"op": "binary", "fn": prod, "a": f, "b": f})
+            w = T(g, ["j", "k"])
+            if p2 and w:
+                q = g.emit({"op": "binary", "fn": prod, "a": p2, "b": w})
+                if q:
+                    g.emit({"op": "reduce", "fn": red, "a": q, "vars": [["j", g.sizes["j"]], ["l", g.sizes["l"]]]})
+        out.append((g.program, fam))
+    # 3. simultaneous substitution whose values mention substituted names; diagonal renames
+    for _ in range(2):
+        g = Gen(r, family="ring", max_event=0, real_vars=False)
+        t = T(g, ["i", "j", "k"])
+        same = [n for n in NAMES if n != "i" and g.sizes[n] == g.sizes["i"]]
+        u = g.emit({"op": "unary", "fn": "tanh", "a": t})
+        idx = g._index_value(g.sizes["k"])
+        if u and idx:
+            subs = [["k", ["val", idx]], ["j", ["int", r.randrange(g.sizes["j"])]]]
+            if same:
+                subs.append(["i", ["name", same[0]]])
+            g.emit({"op": "subs", "a": u, "subs": subs})
+            c = g.emit({"op": "cat", "name": "j", "parts": [u, u]})
+            if c:
+                g.emit({"op": "subs", "a": c, "subs": [["i", ["name", "j"]]] if g.sizes["i"] == 2 * g.sizes["j"] else [["k", ["val", idx]]]})
+        out.append((g.program, "ring"))
+    # 4. products of three and four factors sharing one reduced variable
+    for fam, red, prod in (("ring", "add", "mul"), ("log", "logaddexp", "add")):
+        g = Gen(r, family=fam, max_event=0, real_vars=False)
+        a, b, c = T(g, ["i", "j"]), T(g, ["i", "k"]), T(g, ["i"])
+        ab = g.emit({"op": "binary", "fn": prod, "a": a, "b": b})
+        abc = g.emit({"op": "binary", "fn": prod, "a": ab, "b": c}) if ab else None
+        if abc:
+            g.emit({"op": "reduce", "fn": red, "a": abc, "vars": [["i", g.sizes["i"]]]})
+            d = T(g, ["l"])
+            abcd = g.emit({"op": "binary", "fn": prod, "a": abc, "b": d})
+            if abcd:
+                g.emit({"op": "reduce", "fn": red, "a": abcd, "vars": [["i", g.sizes["i"]], ["l", g.sizes["l"]], ["k", g.sizes["k"]]]})
+        out.append((g.program, fam))
+    # 5. division by a reduced product, subtraction of reductions (normalize's reciprocal / negation rules)
+    g = Gen(r, family="tropical", max_event=0, real_vars=False)
+    a, b, x = T(g, ["i", "j"]), T(g, ["i"]), T(g, ["j"])
+    ab = g.emit({"op": "binary", "fn": "mul", "a": a, "b": b})
+    den = g.emit({"op": "reduce", "fn": "add", "a": ab, "vars": [["i", g.sizes["i"]]]}) if ab else None
+    if den:
+        g.emit({"op": "binary", "fn": "truediv", "a": x, "b": den})
+        g.emit({"op": "binary", "fn": "sub", "a": x, "b": den})
+        rec = g.emit({"op": "unary", "fn": "reciprocal", "a": den})
+        if rec:
+            g.emit({"op": "binary", "fn": "mul", "a": rec, "b": x})
+    out.append((g.program, "tropical"))
+    return [(p, f) for p, f in out if len(p) >= 2]
